@@ -49,6 +49,19 @@ where ``whitespace-separates-paragraphs=False`` must be honoured at every stage 
 A witness is re-executed in a fresh interpreter (the judged step alone, the case, the case with the preceding steps of
 the process as ``prelude``) and the smallest one that fails there is reported.
 
+STRINGS UNDER MULTIVALUED NAMES (step op ``mvstr`` of the ``sub`` kind, M.mvstr): in ``Dsc`` / ``Changes`` /
+``BuildInfo`` / ``Sources`` / ``Release`` / ``PdiffIndex`` a STRING (not a record list) is assigned to a field the class
+treats as multivalued - there assignment-time validation is skipped and the class relies on its dump-time formatter -
+and at least one more field follows it.  Three outcomes: the assignment raises (any exception; the paragraph must be
+unchanged - M.mvstr.unchanged / K), ``dump()`` raises (any exception), or ``dump()`` returns text.  The first two are
+the library's choice and only counted.  Text is re-read through the class's own ``iter_paragraphs`` AND through
+``Deb822.iter_paragraphs`` (str always; bytes, LF-only line/stream/file forms and the constructors by rotation;
+``whitespace-separates-paragraphs=False`` always, the default setting when neither the string nor any text value of
+the paragraph has a blank continuation line) and must give ONE paragraph with exactly the names the paragraph holds,
+none of which may be a name that was never assigned (M.reread-mvstr, a sub-count of M.reread-sub).  The same is done
+with the string payloads of the *prime* steps.  No other demand: a defective string that the class normalises into
+records is fine, and nothing says which strings must be accepted.
+
 Auxiliary K-monitor: contract on the exceptional exit of
 ``Deb822.__setitem__`` (every binding): the mapping is unchanged.
 
@@ -70,7 +83,7 @@ LEVEL = 'exploration'
 TOKENS = ['a', ':', '#', ' ', '\t', '\r', '\n', '-', '.', 'B: x']
 ENUM_MAXLEN = {'quick': 5, 'thorough': 7}
 BLOCK_SUFFIX = 3                     # one enum case = one prefix x all 10^3 suffixes
-RANDOM_TOTAL = {'quick': 24000, 'thorough': 900000}
+RANDOM_TOTAL = {'quick': 22000, 'thorough': 900000}
 
 RULE = ('Values: (1) ENUMERATED - every concatenation of <= 5 (quick) / <= 7 (thorough) tokens from '
         "['a', ':', '#', ' ', TAB, CR, LF, '-', '.', 'B: x'], each assigned to the middle field of a 3-field "
@@ -142,7 +155,33 @@ RULE = ('Values: (1) ENUMERATED - every concatenation of <= 5 (quick) / <= 7 (th
         '+3 LF-only iter forms and 2 constructor forms; a CR value: +1..3; half of the rest: +1; out of StringIO, BytesIO, '
         'line lists with/without LF (as list for iter_paragraphs, as iterator AND as plain list for the constructor), text '
         'and binary file written by dump(fd); each with strict={whitespace-separates-paragraphs: False} and, when no value of '
-        'the paragraph has a blank continuation line, with strict=None.')
+        'the paragraph has a blank continuation line, with strict=None.  '
+        '(6) STRINGS UNDER MULTIVALUED NAMES - one-step histories (op mvstr), run after (5): a class in which the name IS '
+        'multivalued (34 (class, name) pairs of Dsc / Changes / BuildInfo / Sources / Release / PdiffIndex, + Package-List '
+        'of Dsc / Sources, + whatever else a class declares when the shard starts) is assigned a STRING under it through '
+        'item assignment / update / setdefault / cls(dict) / item assignment followed by copy() (both objects judged), '
+        'in five layouts (new field then one more field assigned; replacing parsed or assigned records in the middle / '
+        'at the start; sole field then two more; behind another multivalued field holding records), paragraph built by '
+        'assignment or by parsing its own dump (str / StringIO), Release sometimes with size_field_behavior=dak; always '
+        'at least one field FOLLOWS the string.  (6a) SHAPES: every pair x 47 record texts of the right column count '
+        '(well-formed with / without leading LF, one record on the field line; each with a TRAILING LF, CR LF, CR, LF LF; an empty line '
+        'inside (LF, CR LF, CR); an UNINDENTED continuation line that is a column-correct record reading like a field '
+        "('Inj: y z', after LF / CR / CR LF, first / middle / all lines); ending in / holding a blank-only line; indented "
+        'look-alike, comment, PGP armour, CR inside a token, tabs, empty / LF / blank / word, short and long record) x 5 '
+        'routes x 2 layouts (quick: every (pair, shape) with one rotating route + every (class, route, shape) on a '
+        'rotating name).  (6b) TOKENS: every concatenation s of <= 3 (quick) / <= 5 (thorough) tokens of the alphabet of '
+        "(1) in five contexts - s alone; well-formed record text + s; s opening the line after a record (padded so that "
+        "'B: x' makes a column-correct record); s inside an indented line between two records; a single record on the "
+        'field line + s - (class, name) and layout by a CRC of s, routes rotating (longest length thinned: quick every '
+        '2nd string except behind a record, thorough every 4th).  (6c) SEEDED: 45% well-formed record text with one or '
+        'two defects put in (trailing boundary, empty / blank-only / unindented / look-alike / comment / PGP line, CR or '
+        'tab inside a line), 30% random values as in (2), 12% whitespace-only-continuation values, 13% fixed hostile / '
+        'accepted values.  Outcome per object: assignment raised / dump raised (both counted, nothing demanded beyond an '
+        'unchanged paragraph after a refused assignment) / dump returned text -> re-read: str through '
+        'cls.iter_paragraphs and through Deb822.iter_paragraphs always, bytes through the class for every 2nd value, plus '
+        'LF-only forms and constructor forms as in (5) (blank continuation: 5 more pairs; CR: 1..3; half of the rest: 1; '
+        'a --replay: all).  The string payloads of the prime steps of (5) are judged the same way.  NON-TRIVIAL: the '
+        'string contains a line boundary; distinct = distinct (class, name, string).')
 ASSUMPTIONS = [
     'vp.models.deb822value (30 lines) states the three defects of the property: value ends in LF; a line after the '
     'first is empty; a line after the first does not start with space/tab.  Lines are split on LF, CR LF, CR; a '
@@ -217,6 +256,28 @@ ASSUMPTIONS = [
     '/depends-on-what-other-classes-or-objects-did-before when the step alone passes there.  Cases of the older kinds run '
     'AFTER the subclass layer in the same process: on a tree that leaks state across classes their witnesses may not '
     'reproduce standalone (the confirmed subclass-layer witnesses do).',
+    'STRINGS UNDER MULTIVALUED NAMES.  The statement\'s re-read discipline is applied to whatever the subclass layer is '
+    'willing to WRITE: if a string was assigned to a field (multivalued in that class or not) without an exception and '
+    'dump() returns text, that text must re-read as one paragraph with the names of the paragraph.  This is demanded of '
+    'every field alike, so no domain guard on the name is needed (names come from the reference table, from the '
+    "class's own declaration at start, and Package-List).  Guards, all on the under-demanding side: (i) an exception of "
+    'ANY type at the assignment (item assignment, update, setdefault, cls(dict)) or at dump() is the library\'s choice - '
+    'counted per type (mvs:assign-raised:* / mvs:dump-raised:*), never reported; the present tree accepts every string '
+    'under a multivalued name, its formatter then raises TypeError (string kept as such) / KeyError (string turned into '
+    'incomplete records by cls(dict) or copy()) / ValueError, and writes text only for strings the constructor could '
+    'turn into complete records (and for the empty string); (ii) after a refused item assignment / update / setdefault '
+    'list() and dump() must be what they were (dump() worked before the assignment) - the exception type is not judged '
+    'here; (iii) no must-reject demand: a string with a stated defect may be accepted and written, as long as what is '
+    'written re-reads correctly (the constructor normalises such strings into records); (iv) the names compared are the '
+    'names list(d) holds after the assignments; a held name that was never assigned is reported, an assigned name the '
+    'paragraph does not hold is only counted; (v) the default parser setting is consulted only when neither the '
+    'assigned string nor any text value the paragraph holds has a blank continuation line (model lines); (vi) a '
+    'paragraph that cannot be built or dumped BEFORE the string is assigned (ordinary values, well-formed records) is '
+    'skipped and counted; record neighbours travel as well-formed record text on the cls(dict) route; copy() raising is no '
+    'demand; (vii) a re-read that raises counts as "does not give one paragraph" (as everywhere in this module); '
+    '(viii) the floors of this class are on ATTEMPTS (cases, routes, classes, pairs, shapes, enumeration lengths); how '
+    'many attempts end in text is the library\'s choice - conclusive() only checks that every attempt was classified and '
+    'that every text outcome was re-read at least through the class and through Deb822.',
 ]
 ANCHORS = ['debian.deb822:Deb822.validate_input',
            'debian.deb822:Deb822.__setitem__',
@@ -347,6 +408,46 @@ for _tier, _f in _SUB_FLOORS.items():
         FLOORS[_tier]['counters'].update((_pat % _c, _n) for _c in _SUB_PRIME_CLASSES)
     for _pat, _n in _f['per-how'].items():
         FLOORS[_tier]['counters'].update((_pat % _h, _n) for _h in _SUB_PRIME_HOWS)
+
+# STRINGS UNDER MULTIVALUED NAMES: floors on ATTEMPTS only (~50% of the minimum over seeds 0-3 quick / seed 0 thorough;
+# enumeration counters are deterministic and must be complete).  How an attempt ends - refused at assignment, refused at
+# dump(), text written - is the library's choice: no floors on mvs:outcome:* / mvs:dump-* / mvs:assign-raised:* /
+# M.mvstr / M.reread-mvstr (conclusive() checks that every attempt was classified and every text outcome re-read).
+_MVS_PAIRS = ([(c, x) for c in _SUB_PRIME_CLASSES for x in sorted(
+    {'Dsc': ['files', 'checksums-sha1', 'checksums-sha256', 'checksums-sha512'],
+     'Changes': ['files', 'checksums-sha1', 'checksums-sha256', 'checksums-sha512'],
+     'Sources': ['files', 'checksums-sha1', 'checksums-sha256', 'checksums-sha512'],
+     'BuildInfo': ['checksums-md5', 'checksums-sha1', 'checksums-sha256', 'checksums-sha512'],
+     'Release': ['md5sum', 'sha1', 'sha256', 'sha512'],
+     'PdiffIndex': [p_ + h_ + '-' + k_ for p_ in ('', 'x-unmerged-') for h_ in ('sha1', 'sha256')
+                    for k_ in ('history', 'patches', 'download')] + ['sha1-current', 'sha256-current']}[c])]
+              + [('Dsc', 'package-list'), ('Sources', 'package-list')])
+_MVS_SHAPE_GROUPS = ['blank', 'blank-only-end', 'blank-only-first', 'blank-only-inside', 'comment-line', 'cr-inside-token',
+                     'empty', 'empty-line-first', 'empty-line-inside', 'indented-lookalike', 'lf', 'long-record',
+                     'nl-records', 'nl-single', 'pgp-line', 'records', 'short-record', 'single', 'tabs', 'unindented',
+                     'word']
+_MVS_FLOORS = {
+    'quick': {'counters': {'mvs:case': 8757, 'sub:case:mvs-enum': 3102, 'sub:case:mvs-tokens': 4055,
+                           'sub:case:mvs-hist': 800, 'mvs:enum-len:3': 3500, 'mvs:enum-len:2': 500, 'mvs:enum-len:1': 50,
+                           'mvs:object': 5700, 'mvs:prime-step-judged': 800, 'mvs:name:declared-multivalued': 4100,
+                           'mvs:route:setitem': 1200, 'mvs:route:update': 870, 'mvs:route:setdefault': 520,
+                           'mvs:route:ctor': 870, 'mvs:route:copy': 860,
+                           'mvs:cls:Dsc': 600, 'mvs:cls:Changes': 510, 'mvs:cls:BuildInfo': 540, 'mvs:cls:Sources': 650,
+                           'mvs:cls:Release': 540, 'mvs:cls:PdiffIndex': 1450,
+                           'mvs:layout:new': 1800, 'mvs:layout:new:first': 860, 'mvs:layout:replace-records': 850,
+                           'mvs:layout:replace-records:first': 810,
+                           'mvs:build:assign': 1390, 'mvs:build:parse': 690, 'mvs:build:parse-stream': 680,
+                           'mvs:value:trailing-newline': 460, 'mvs:value:empty-line': 400,
+                           'mvs:value:continuation-not-indented': 1290, 'mvs:value:no-stated-defect': 2350,
+                           'mvs:value:blank-continuation': 1050, 'mvs:value:cr': 1290},
+              'per-pair': 75, 'per-shape-group': 33, 'per-shape-route': 6},
+    'thorough': {'counters': {}, 'per-pair': 0, 'per-shape-group': 0, 'per-shape-route': 0},
+}
+for _tier, _f in _MVS_FLOORS.items():
+    FLOORS[_tier]['counters'].update(_f['counters'])
+    if _f['per-pair']:
+        FLOORS[_tier]['counters'].update(('mvs:pair:%s:%s' % _p, _f['per-pair']) for _p in _MVS_PAIRS)
+        FLOORS[_tier]['counters'].update(('mvs:shape:' + _g, _f['per-shape-group']) for _g in _MVS_SHAPE_GROUPS)
 
 WS_FALSE = {'whitespace-separates-paragraphs': False}
 
@@ -1219,10 +1320,254 @@ def rand_sub_case(r, k):
     return {'kind': 'sub', 'wl': 'hist', 'steps': steps}
 
 
+# ---- STRINGS UNDER MULTIVALUED NAMES (step op 'mvstr'): a class in which the name IS multivalued is assigned a STRING
+# under it (assignment-time validation is skipped there; the class relies on its dump-time formatter), followed by at
+# least one more field.  The library may refuse at assignment or at dump() - both fine, counted.  Whatever text dump()
+# is willing to return must re-read as ONE paragraph with exactly the names of the paragraph.
+
+MVS_ROUTES = ['setitem', 'update', 'setdefault', 'ctor', 'copy']
+MVS_BUILDS = ['assign', 'parse', 'assign', 'parse-stream']
+MVS_LAYOUTS = 5
+MVS_TOKS = [['0123abcd', '12', 'n_1.0.dsc', 'optional', 'extra'], ['4567ef', '3456', 'n_1.0.tar.gz', 'devel', 'net'],
+            ['89ab', '7', 'm.gz', 'misc', 'x_1_all.deb']]
+MVS_INJ = [['Inj:', 'y', 'z', 'w', 'q'], ['B:x', '2', 'n', 'o', 'p'], ['K:', 'v', 'm', 'o', 'p']]
+MVS_ENUM_MAXLEN = {'quick': 3, 'thorough': 5}
+MVS_ENUM_FULL = {'quick': 2, 'thorough': 4}        # above this length the strings are thinned out: every N-th string
+MVS_ENUM_THIN = {'quick': (1, 2), 'thorough': (4, 4)}    # in contexts 1 and 4 (s follows a well-formed record) / the others
+MVS_RANDOM_TOTAL = {'quick': 1600, 'thorough': 70000}
+
+
+# names driven like multivalued ones although the reference table calls them ordinary text (structured in the format,
+# 'package type section priority'): whatever the class does with them, the demand below holds for ANY field
+MVS_EXTRA = [('Dsc', 'package-list'), ('Sources', 'package-list')]
+MVS_EXTRA_COLS = 4
+
+
+def mv_pairs():
+    """Every (class, lower-case name) the reference table says is multivalued in that class, MVS_EXTRA, and whatever
+    else a class itself declares multivalued when the shard starts."""
+    out = [(c, x) for c in _SUB_PRIME_CLASSES for x in sorted(MV_MODEL[c])] + MVS_EXTRA
+    out += [(c, x) for c in _SUB_PRIME_CLASSES for x in sorted(DECL.get(c, ())) if (c, x) not in out]
+    return out
+
+
+def mv_ncols(cls, x):
+    if x in DECL.get(cls, ()):
+        return max(1, len(DECL[cls][x]))
+    return MV_MODEL[cls].get(x, MVS_EXTRA_COLS)
+
+
+def mv_spell(x, k):
+    d = DISPLAY.get(x) or '-'.join(w.capitalize() for w in x.split('-'))
+    return (d, d, x, d.upper(), d)[k % 5]
+
+
+def mvs_line(ncols, j, pool=MVS_TOKS):
+    return ' '.join(pool[j % len(pool)][:ncols])
+
+
+def mvs_shapes(ncols):
+    """[(label, string)]: record text for a field of ncols columns - well-formed, and with each of the shapes that
+    would inject / split if a formatter wrote them out as they are (every line has exactly ncols tokens, so that a
+    formatter that only counts columns is content)."""
+    r1, r2, r3 = mvs_line(ncols, 0), mvs_line(ncols, 1), mvs_line(ncols, 2)
+    i1, i2, i3 = mvs_line(ncols, 0, MVS_INJ), mvs_line(ncols, 1, MVS_INJ), mvs_line(ncols, 2, MVS_INJ)
+    wf = [('nl-records', '\n %s\n %s' % (r1, r2)), ('records', '%s\n %s' % (r1, r2)), ('single', r1),
+          ('nl-single', '\n ' + r1)]
+    out = list(wf)
+    for label, s in wf:
+        out.append((label + '+lf', s + '\n'))
+    out += [('nl-records+crlf', wf[0][1] + '\r\n'), ('records+cr', wf[1][1] + '\r'), ('single+lflf', r1 + '\n\n'),
+            ('nl-records+lf-blank-lf', wf[0][1] + '\n \n'),
+            ('empty-line-inside', '\n %s\n\n %s' % (r1, r2)), ('empty-line-inside:field-line', '%s\n\n %s' % (r1, r2)),
+            ('empty-line-inside:crlf', '\n %s\r\n\r\n %s' % (r1, r2)), ('empty-line-inside:cr', '\n %s\r\r %s' % (r1, r2)),
+            ('empty-line-first', '\n\n %s\n %s' % (r1, r2)),
+            ('unindented', '\n %s\n%s' % (r1, i1)), ('unindented:middle', '\n %s\n%s\n %s' % (r1, i2, r2)),
+            ('unindented:field-line', '%s\n%s' % (r1, i3)), ('unindented:cr', '\n %s\r%s' % (r1, i1)),
+            ('unindented:cr:field-line', '%s\r%s' % (r1, i2)), ('unindented:cr:field-line:twice', '%s\r%s\r%s' % (r1, i1, i3)),
+            ('single+tail', '%s %s' % (r1, i1)), ('single+cr', r1 + '\r'), ('single+cr-blank', r1 + '\r '),
+            ('unindented:crlf', '\n %s\r\n%s\r\n %s' % (r1, i2, r2)), ('unindented:first', '\n%s\n %s' % (i1, r2)),
+            ('unindented:record', '\n %s\n%s' % (r1, r2)), ('unindented:all', '\n%s\n%s' % (i3, i1)),
+            ('blank-only-end', '\n %s\n ' % r1), ('blank-only-end:tab', '%s\n %s\n\t' % (r1, r2)),
+            ('blank-only-end:field-line', r1 + '\n  '), ('blank-only-end:cr', '\n %s\r ' % r1),
+            ('blank-only-inside', '\n %s\n \n %s' % (r1, r2)), ('blank-only-first', '\n \n %s' % r1),
+            ('indented-lookalike', '\n %s\n %s' % (r1, i1)), ('comment-line', '\n %s\n#%s\n %s' % (r1, i1, r2)),
+            ('cr-inside-token', '\n %s\n a\r%s' % (r1, i1)), ('tabs', '\n\t%s\n\t%s' % (r1.replace(' ', '\t'), r3)),
+            ('pgp-line', '\n %s\n-----BEGIN PGP SIGNATURE-----\n %s' % (r1, r2)),
+            ('empty', ''), ('lf', '\n'), ('blank', ' '), ('word', 'x'), ('short-record', '\n ' + ' '.join(r1.split()[:-1])),
+            ('long-record', '\n %s extra\n %s' % (r1, r2))]
+    return out
+
+
+for _tier, _f in _MVS_FLOORS.items():       # every shape through item-assignment-like routes, cls(dict) and copy()
+    if _f['per-shape-route']:
+        FLOORS[_tier]['counters'].update(('mvs:shape-route:%s:%s' % (_l, _r), _f['per-shape-route'])
+                                         for _l, _v in mvs_shapes(3) for _r in ('assign', 'ctor', 'copy'))
+
+
+def _recs_text(spec, ncols):
+    return '\n' + '\n'.join(' ' + ' '.join((t + ['x'] * ncols)[:ncols]) for t in spec['recs'])
+
+
+def mk_mvstr(cls, x, v, k, route=None, layout=None, shape=None):
+    """One judged step: class cls (x is multivalued there) gets the STRING v under x, and at least one more field."""
+    pool = [n for n in CLASS_FIELDS[cls] if n.lower() != x and n.lower() not in MV_MODEL[cls]]
+    f0, f2, f3 = pool[0], pool[2], pool[3]
+    name = mv_spell(x, k)
+    old = [mv_spell(x, k + 1), {'recs': RECS[k % len(RECS)]}]
+    own = sorted(n for n in MV_MODEL[cls] if n != x)
+    ownf = [DISPLAY[own[k % len(own)]], {'recs': RECS[(k + 1) % len(RECS)]}]
+    lay = k % MVS_LAYOUTS if layout is None else layout
+    if lay == 0:
+        before, after = [[f0, 'p1']], [[f2, 'z9']]                          # new; one field assigned afterwards
+    elif lay == 1:
+        before, after = [[f0, 'p1'], old, [f2, 'z9']], []                   # replaces records, in the middle
+    elif lay == 2:
+        before, after = [], [[f0, 'p1'], [f3, '1']]                         # first; two fields assigned afterwards
+    elif lay == 3:
+        before, after = [[f0, 'p1\n p2'], ownf], [[f2, 'z9']]               # behind another multivalued field
+    else:
+        before, after = [old, [f0, 'p1']], [[f3, '\n z8\n z9']]             # replaces records, first; multi-line after
+    st = {'op': 'mvstr', 'cls': cls, 'name': name, 'v': v, 'before': before, 'after': after,
+          'route': MVS_ROUTES[(k // MVS_LAYOUTS) % len(MVS_ROUTES)] if route is None else route,
+          'build': MVS_BUILDS[(k // 3) % len(MVS_BUILDS)]}
+    if shape:
+        st['shape'] = shape
+    if cls == 'Release' and k % 3 == 0:
+        st['dak'] = True
+    return st
+
+
+def mvs_enum_cases(quick=False):
+    """(6a) every (class, multivalued name) x every shape x every route x two layouts (quick: every (pair, shape) with
+    one rotating route + every (class, route, shape) on one rotating name of the class)."""
+    i = 0
+    for pi, (cls, x) in enumerate(mv_pairs()):
+        shapes = mvs_shapes(mv_ncols(cls, x))
+        for si, (label, v) in enumerate(shapes):
+            for ri, route in enumerate(MVS_ROUTES):
+                if quick and ri != (pi + si) % len(MVS_ROUTES):
+                    continue
+                for lay in ((i + ri) % MVS_LAYOUTS, (i + ri + 1 + si % 4) % MVS_LAYOUTS):
+                    i += 1
+                    yield {'kind': 'sub', 'wl': 'mvs-enum', 'steps': [mk_mvstr(cls, x, v, i, route, lay, label)]}
+                    if quick:
+                        break
+    if quick:
+        for ci, cls in enumerate(_SUB_PRIME_CLASSES):
+            names = [x for c, x in mv_pairs() if c == cls]
+            for ri, route in enumerate(MVS_ROUTES):
+                x = names[(ci + ri) % len(names)]
+                for si, (label, v) in enumerate(mvs_shapes(mv_ncols(cls, x))):
+                    i += 1
+                    yield {'kind': 'sub', 'wl': 'mvs-enum', 'steps': [mk_mvstr(cls, x, v, i, route, None, label)]}
+
+
+MVS_CONTEXTS = 5
+
+
+def mvs_context(ci, s, ncols):
+    """Where an enumerated token string s is put relative to well-formed record text of ncols columns."""
+    r1, r2 = mvs_line(ncols, 0), mvs_line(ncols, 1)
+    fill = ''.join(' ' + t for t in MVS_TOKS[2][:max(0, ncols - 2)])     # 'B: x' + fill has exactly ncols tokens
+    if ci == 0:
+        return s                                         # the whole value
+    if ci == 1:
+        return '\n ' + r1 + s                            # what follows a well-formed record
+    if ci == 2:
+        return '\n %s\n%s%s' % (r1, s, fill)             # s opens the second line
+    if ci == 4:
+        return r1 + s                                    # what follows a single record on the field line
+    return '\n %s\n %s%s\n %s' % (r1, s, fill, r2)       # s inside an indented line between two records
+
+
+def run_mvs_penum(ctx, case):
+    """One block of the token enumeration under multivalued names: one context, one prefix, all suffixes."""
+    k, ci = case['k'], case['c']
+    prefix = ''.join(TOKENS[i] for i in case['prefix'])
+    slen = k - len(case['prefix'])
+    pairs = mv_pairs()
+    n = sum(case['prefix']) * 7 + k + ci * 3
+    first = True
+    for suffix in itertools.product(TOKENS, repeat=slen):
+        s = prefix + ''.join(suffix)
+        n += 1
+        if k > MVS_ENUM_FULL[ctx.tier] and n % MVS_ENUM_THIN[ctx.tier][0 if ci in (1, 4) else 1]:
+            continue
+        if not first:
+            ctx.evaluations += 1
+        first = False
+        ctx.count('mvs:enum-len:%d' % k)
+        h = zlib.crc32(s.encode('utf-8')) + ci
+        cls, x = pairs[(h >> 4) % len(pairs)]
+        st = mk_mvstr(cls, x, mvs_context(ci, s, mv_ncols(cls, x)), h >> 9, MVS_ROUTES[n % len(MVS_ROUTES)])
+        run_sub(ctx, {'kind': 'sub', 'wl': 'mvs-tokens', 'steps': [st]})
+
+
+def mvs_mutated(r, ncols):
+    """Well-formed record text with one or two of the defects a dump-time formatter has to catch."""
+    lines = [mvs_line(ncols, j) for j in range(r.choice([1, 2, 2, 3]))]
+    lines = [' ' + l for l in lines]
+    if r.random() < 0.7:
+        lines.insert(0, '')
+    else:
+        lines[0] = lines[0][1:]
+    bound = r.choice(['\n', '\n', '\n', '\r\n', '\r'])
+    tail = ''
+    for _ in range(r.choice([1, 1, 2])):
+        m = r.randrange(10)
+        at = r.randint(1, len(lines))
+        if m == 0:
+            tail = r.choice(['\n', '\n', '\r\n', '\r', '\n\n', '\n \n', '\n '])
+        elif m == 1:
+            lines.insert(at, '')
+        elif m == 2:
+            j = r.randrange(1, len(lines)) if len(lines) > 1 else 0
+            lines[j] = lines[j].lstrip(' ')
+        elif m == 3:
+            lines.insert(at, mvs_line(ncols, r.randrange(3), MVS_INJ))
+        elif m == 4:
+            lines.insert(at, r.choice([' ', '\t', '  ', ' \t ']))
+        elif m == 5:
+            lines.insert(at, r.choice(INJECT + SPECIAL_LINES))
+        elif m == 6:
+            lines.insert(at, ' ' + r.choice(INJECT + SPECIAL_LINES))
+        elif m == 7:
+            j = r.randrange(len(lines))
+            cut = r.randint(0, len(lines[j]))
+            lines[j] = lines[j][:cut] + r.choice(['\r', '\r', '\r\n', '\t', '\r ']) + r.choice(['', 'B: x ', 'Inj: ']) \
+                + lines[j][cut:]
+        elif m == 8:
+            j = r.randrange(len(lines))
+            lines[j] = lines[j].replace(' ', '\t')
+        else:
+            lines.insert(at, mvs_line(ncols, r.randrange(3), MVS_INJ) + r.choice([' more', '', ':']))
+    return bound.join(lines) + tail
+
+
+def rand_mvs_case(r, k):
+    pairs = mv_pairs()
+    cls = r.choice(_SUB_PRIME_CLASSES) if r.random() < 0.5 else None         # half: every class alike; half: every pair alike
+    cls, x = r.choice([p for p in pairs if cls is None or p[0] == cls])
+    q = r.random()
+    if q < 0.45:
+        v = mvs_mutated(r, mv_ncols(cls, x))
+    elif q < 0.75:
+        v = rand_value(r)
+    elif q < 0.87:
+        v = ws_value(r)
+    else:
+        v = r.choice(GOOD_X + HOSTILE_X + WS_VALUES)
+    st = mk_mvstr(cls, x, v, k + r.randint(0, 59), r.choice(MVS_ROUTES), r.randrange(MVS_LAYOUTS))
+    st['build'] = r.choice(MVS_BUILDS)
+    return {'kind': 'sub', 'wl': 'mvs-hist', 'steps': [st]}
+
+
 # ---- execution
 
-def do_prime(ctx, st):
-    """A class in which the name is multivalued handles it.  Nothing is demanded; any exception is only counted."""
+def do_prime(ctx, st, idx=0, sink=None, depth='none'):
+    """A class in which the name is multivalued handles it.  Nothing is demanded; any exception is only counted -
+    except that a STRING payload the class accepted and was willing to dump() is re-read like every 'mvstr' step."""
     from ..core import MonitorViolation
     clsname, name, how = st['cls'], st['name'], st['how']
     cls = sub_cls(clsname)
@@ -1278,7 +1623,16 @@ def do_prime(ctx, st):
     text = attempt('dump', d.dump)
     if text is not None:
         attempt('reread', lambda: list(cls.iter_paragraphs(text)))
-    attempt('copy', d.copy)
+    c = attempt('copy', d.copy)
+    if kind == 'string' and sink is not None:
+        # the string payload is followed by 'Version': judged as a string under a multivalued name
+        sel = (zlib.crc32(val.encode('utf-8')) >> 3) + idx
+        for o, tag in ((d, 'prime:' + how), (c, 'prime:copy-object')):
+            if o is not None and (o is d or text is None or idx % 2):
+                ctx.count('mvs:prime-step-judged')
+                judge_mv_object(ctx, o, clsname, name, val, ['source', name.lower(), 'version'],
+                                'dump of the %s built by %s with the string under %r' % (clsname, how, name), sink,
+                                depth, sel, tag)
 
 
 def build_obj(cls, pairs, build):
@@ -1444,13 +1798,200 @@ def do_judge(ctx, st, idx, sink, depth, in_case):
                      sub=clsname, sink=sink, followed=followed)
 
 
+def judge_mv_object(ctx, o, clsname, name, v, assigned, what, sink, depth, sel, tag):
+    """STRING UNDER A MULTIVALUED NAME, after the library accepted the assignment: dump() may raise (the library's
+    choice, counted); the text it returns must re-read as ONE paragraph with exactly the names of the paragraph."""
+    from ..core import MonitorViolation
+    ctx.count('mvs:object')
+    try:
+        text = o.dump()
+    except MonitorViolation:
+        raise
+    except Exception as e:
+        ctx.count('mvs:outcome:dump-raised')
+        ctx.count('mvs:dump-raised:' + type(e).__name__)
+        ctx.count('mvs:dump-raised:via:' + tag)
+        return
+    ctx.count('mvs:outcome:dump-text')
+    ctx.count('mvs:dump-text:' + clsname)
+    ctx.count('mvs:dump-text:via:' + tag)
+    if model.defects(v):
+        ctx.count('mvs:dump-text:value-with-stated-defect')       # e.g. normalised into records by the constructor
+    keys = list(o)
+    got = [k.lower() for k in keys]
+    extra = [k for k in keys if k.lower() not in assigned]
+    if extra:
+        ctx.count('mvs:adds-field-at-assignment')
+        sink('accepted-value-adds-field/at-assignment/string-under-multivalued-name',
+             '%s: after assigning the string %r to the multivalued field %r the paragraph holds the names %r; %r were '
+             'never assigned (assigned: %r); dump is %r' % (what, v, name, keys, extra, assigned, text))
+        return
+    if got != assigned:
+        ctx.count('mvs:names-held-differ-from-names-assigned')    # a dropped name: not judged (statement is silent)
+    values = [x for x in (o[k] for k in keys) if isinstance(x, str)] + [v]
+    ctx.mon('M.mvstr')
+    check_reread(ctx, o, v, None, what=what, depth=depth, sel=sel, values=values,
+                 suffix='/string-under-multivalued-name', sub=clsname, sink=sink,
+                 followed=bool(keys) and keys[-1].lower() != name.lower(), mv=True)
+
+
+def do_mvstr(ctx, st, idx, sink, depth):
+    """A STRING is assigned to a field that IS multivalued in the class, followed by at least one more field.
+    Refusing at assignment or at dump() is the library's choice; what dump() returns is judged by re-reading."""
+    from ..core import MonitorViolation
+    from .. import contracts
+    clsname, name, v = st['cls'], st['name'], st['v']
+    route, build = st.get('route', 'setitem'), st.get('build', 'assign')
+    nl = name.lower()
+    ctx.count('mvs:case')
+    # no domain guard is needed: "refuse, or write something that re-reads as this paragraph" holds for ANY field
+    ctx.count('mvs:name:' + ('declared-multivalued' if nl in DECL[clsname] else 'not-declared-multivalued'))
+    cls = sub_cls(clsname)
+    PRIMED.add(nl)
+    pairs, recs_before = [], False
+    for n, val in st.get('before') or []:
+        if isinstance(val, dict):
+            keys = DECL[clsname].get(n.lower())
+            if keys is None or n.lower() not in MV_MODEL[clsname]:
+                ctx.count('mvs:skipped:records-for-undeclared-field')
+                continue
+            # the constructor cannot take record lists from a mapping: there the records travel as well-formed text
+            val = _recs_text(val, len(keys)) if route == 'ctor' else make_records(keys, val)
+            recs_before = recs_before or route != 'ctor'
+        elif not ordinary(clsname, n):
+            ctx.count('mvs:skipped:neighbour-declared-multivalued-by-class')
+            continue
+        pairs.append((n, val))
+    after = [(n, val) for n, val in st.get('after') or [] if ordinary(clsname, n) and n.lower() != nl]
+    present = any(n.lower() == nl for n, _ in pairs)
+    if route == 'setdefault' and present:
+        route = 'setitem'
+    if not present and not after:
+        after = [('X-After', 'z')]            # a string under a multivalued name is always followed by a field
+    ctx.count('mvs:cls:' + clsname)
+    ctx.count('mvs:pair:%s:%s' % (clsname, nl))
+    ctx.count('mvs:route:' + route)
+    ctx.count('mvs:build:' + (build if pairs and route != 'ctor' else 'n/a'))
+    ctx.count('mvs:layout:' + ('replace-records' if present else 'new') + (':first' if not pairs or pairs[0][0].lower() == nl
+                                                                         else ''))
+    if st.get('shape'):
+        ctx.count('mvs:shape:' + st['shape'].split(':')[0].split('+')[0])
+        ctx.count('mvs:shape-route:%s:%s' % (st['shape'], 'assign' if route in ('setitem', 'update', 'setdefault') else route))
+    dfx = model.defects(v)
+    for what_d in dfx:
+        ctx.count('mvs:value:' + what_d)
+    if not dfx:
+        ctx.count('mvs:value:no-stated-defect')
+    if model.blank_continuation(v):
+        ctx.count('mvs:value:blank-continuation')
+    if '\r' in v:
+        ctx.count('mvs:value:cr')
+    if model.has_boundary(v):
+        ctx.nontrivial(case={'cls': clsname, 'multivalued': name, 'v': v},
+                       key=hashlib.sha1(('mvs\0%s\0%s\0%s' % (clsname, nl, v)).encode('utf-8')).hexdigest())
+    where = '%s paragraph (%s; fields before %r, after %r)' % (clsname, route, pairs, after)
+    if route == 'ctor':
+        items, seen = [], False
+        for n, val in pairs:
+            if n.lower() == nl:
+                items.append((n, v))
+                seen = True
+            else:
+                items.append((n, val))
+        if not seen:
+            items.append((name, v))
+        items.extend(after)
+        assigned = [n.lower() for n, _ in items]
+        try:
+            d = cls(dict(items))
+            if st.get('dak'):
+                d.size_field_behavior = 'dak'
+        except MonitorViolation:
+            raise
+        except Exception as e:
+            ctx.count('mvs:outcome:assign-raised')
+            ctx.count('mvs:assign-raised:ctor:' + type(e).__name__)
+            return
+    else:
+        try:
+            d = build_obj(cls, pairs, build if pairs else 'assign')
+            if st.get('dak'):
+                d.size_field_behavior = 'dak'
+            before = (list(d), d.dump())
+        except MonitorViolation:
+            raise
+        except Exception as e:               # well-formed records and ordinary values only: not this property
+            ctx.count('mvs:outcome:build-raised')
+            ctx.count('mvs:build-raised:' + type(e).__name__)
+            return
+        assigned = [n.lower() for n in before[0]]
+        if nl not in assigned:
+            assigned.append(nl)
+        try:
+            K_ACTIVE[0] = True
+            if route == 'update':
+                d.update({name: v})
+            elif route == 'setdefault':
+                d.setdefault(name, v)
+            else:
+                d[name] = v
+        except MonitorViolation as e:
+            contracts.PENDING[:] = []
+            sink(e.key + '/string-under-multivalued-name', e.msg)
+            return
+        except Exception as e:
+            K_ACTIVE[0] = False
+            ctx.count('mvs:outcome:assign-raised')
+            ctx.count('mvs:assign-raised:%s:%s' % (route, type(e).__name__))
+            ctx.mon('M.unchanged')
+            ctx.mon('M.mvstr.unchanged')
+            try:
+                now = (list(d), d.dump())
+            except Exception as e2:
+                now = ('<list/dump raised %s: %s>' % (type(e2).__name__, e2),)
+            if now != before:
+                sink('rejected-assignment-changed-paragraph/string-under-multivalued-name',
+                     'assigning the string %r to the multivalued field %r of a %s was refused (%s) but list/dump changed: '
+                     '%r -> %r' % (v, name, where, type(e).__name__, before, now))
+            return
+        finally:
+            K_ACTIVE[0] = False
+        try:
+            for n, val in after:
+                d[n] = val
+                if n.lower() not in assigned:
+                    assigned.append(n.lower())
+        except MonitorViolation:
+            raise
+        except Exception as e:               # an ordinary value to an ordinary field refused: not this class
+            ctx.count('mvs:outcome:later-field-raised')
+            ctx.count('mvs:later-field-raised:' + type(e).__name__)
+            return
+    ctx.count('mvs:outcome:assignment-accepted')
+    sel = (zlib.crc32(v.encode('utf-8')) >> 3) + idx
+    objs = [(d, 'dump of the %s' % where, route)]
+    if route == 'copy':
+        try:
+            objs.append((d.copy(), 'dump of copy() of the %s' % where, 'copy-object'))
+            ctx.count('mvs:copy-made')
+        except MonitorViolation:
+            raise
+        except Exception as e:
+            ctx.count('mvs:copy-raised:' + type(e).__name__)      # no demand
+    for o, what, tag in objs:
+        judge_mv_object(ctx, o, clsname, name, v, assigned, what, sink, depth, sel, tag)
+
+
 def exec_step(ctx, st, idx, sink, depth, in_case):
     if st['op'] == 'prime':
-        do_prime(ctx, st)
+        do_prime(ctx, st, idx, sink, depth)
         if 'v' in st:
             in_case[st['name'].lower()] = st['v']
         else:
             in_case.setdefault(st['name'].lower(), None)
+    elif st['op'] == 'mvstr':
+        do_mvstr(ctx, st, idx, sink, depth)
+        in_case[st['name'].lower()] = st['v']
     else:
         do_judge(ctx, st, idx, sink, depth, in_case)
 
@@ -1460,9 +2001,9 @@ def step_depth(ctx, st):
         return 'all'
     if st.get('depth'):
         return st['depth']
-    if st['op'] != 'judge':
+    if 'v' not in st:
         return 'none'
-    v = st['v']
+    v = st['v']                      # judge / mvstr steps, and prime steps with a string payload
     if model.blank_continuation(v):
         return 'ws'
     h = zlib.crc32(v.encode('utf-8'))
@@ -1627,6 +2168,30 @@ def setup(ctx):
 K_ACTIVE = [False]     # the K snapshot is taken only while the harness drives an assignment (not inside re-reads)
 
 
+def conclusive(tier, counters, monitor_evals, extra):
+    """Strings under multivalued names: floors are on attempts; the outcomes are the library's choice.  Every attempt
+    must have been classified and every text outcome re-read."""
+    c = counters
+    cases = c.get('mvs:case', 0)
+    done = sum(c.get('mvs:outcome:' + k, 0) for k in ('build-raised', 'assign-raised', 'later-field-raised',
+                                                       'assignment-accepted'))
+    if cases != done:
+        return 'strings under multivalued names: %d cases but %d classified outcomes' % (cases, done)
+    objs = c.get('mvs:object', 0)
+    if objs != c.get('mvs:outcome:dump-raised', 0) + c.get('mvs:outcome:dump-text', 0):
+        return 'strings under multivalued names: %d objects dumped but %d outcomes' % (
+            objs, c.get('mvs:outcome:dump-raised', 0) + c.get('mvs:outcome:dump-text', 0))
+    if objs < c.get('mvs:outcome:assignment-accepted', 0):
+        return 'strings under multivalued names: accepted assignments whose object was never dumped'
+    text = c.get('mvs:outcome:dump-text', 0)
+    if monitor_evals.get('M.mvstr', 0) + c.get('mvs:adds-field-at-assignment', 0) < text:
+        return 'strings under multivalued names: %d text outcomes, only %d judged' % (text, monitor_evals.get('M.mvstr', 0))
+    if monitor_evals.get('M.reread-mvstr', 0) < 2 * monitor_evals.get('M.mvstr', 0):
+        return 'strings under multivalued names: %d judged dumps but only %d re-reads' % (
+            monitor_evals.get('M.mvstr', 0), monitor_evals.get('M.reread-mvstr', 0))
+    return None
+
+
 def finish(ctx):
     from .. import contracts
     contracts.flush_evals(ctx)
@@ -1645,6 +2210,21 @@ def cases(ctx):
     r = ctx.rng('subclass-histories')
     for k in range(ctx.size(SUB_RANDOM_TOTAL['quick'], SUB_RANDOM_TOTAL['thorough'])):
         yield rand_sub_case(r, k)
+    # strings under multivalued names (after the other subclass-layer cases: these steps prime names too)
+    for j, case in enumerate(mvs_enum_cases(ctx.quick)):
+        if ctx.mine(j):
+            yield case
+    j = 0
+    for k in range(0, MVS_ENUM_MAXLEN[ctx.tier] + 1):
+        plen = max(0, k - 2)                     # one block = one context x one prefix x all 10^2 suffixes
+        for ci in range(MVS_CONTEXTS):
+            for prefix in itertools.product(range(len(TOKENS)), repeat=plen):
+                if ctx.mine(j):
+                    yield {'kind': 'mvs-penum', 'k': k, 'c': ci, 'prefix': list(prefix)}
+                j += 1
+    r = ctx.rng('strings-under-multivalued-names')
+    for k in range(ctx.size(MVS_RANDOM_TOTAL['quick'], MVS_RANDOM_TOTAL['thorough'])):
+        yield rand_mvs_case(r, k)
     maxlen = ENUM_MAXLEN[ctx.tier]
     idx = 0
     for k in range(0, maxlen + 1):
@@ -1715,14 +2295,17 @@ def reread_once(src, is_iter, api, strict, cls=None):
 
 
 def check_reread(ctx, d, v, small, what='dump', depth='none', sel=0, values=None, suffix='', sub=None, sink=None,
-                 followed=False):
+                 followed=False, mv=False):
     """M.reread: the accepted value's paragraph re-reads as ONE paragraph with the same names.
     values: all values of a PARSED paragraph (the blank-continuation guard of the default setting then looks at every
     one of them, and the re-reads are also counted as M.reread-parsed).
     sub: SUBCLASS LAYER - name of the class of d: the dump is re-read through THAT class's iter_paragraphs / constructor
     (str always, bytes for every 2nd value, plus the forms sub_plan() selects) and, for the other values, as str through
     plain Deb822; counted as M.reread-sub.
-    sink: called with (key, message) instead of ctx.violation (the subclass layer picks the witness itself)."""
+    sink: called with (key, message) instead of ctx.violation (the subclass layer picks the witness itself).
+    mv: v is a STRING the class accepted under one of its MULTIVALUED names and was willing to dump: always re-read as
+    str through the class AND through plain Deb822 (+ bytes through the class for every 2nd value, + sub_plan());
+    counted as M.reread-mvstr."""
     keys = list(d)
     text = d.dump()
     parsed = values is not None and sub is None
@@ -1736,7 +2319,7 @@ def check_reread(ctx, d, v, small, what='dump', depth='none', sel=0, values=None
         combos = [('str', 'iter', rcls)]
         if depth == 'all' or sub == 'Deb822' or sel & 1 == 0:
             combos.append(('bytes', 'iter', rcls))
-        if sub != 'Deb822' and (depth == 'all' or sel & 1):
+        if sub != 'Deb822' and (depth == 'all' or sel & 1 or mv):
             combos.append(('str', 'iter', None))
         extra = sub_plan(depth, sel)
         combos.extend((f, a, rcls) for f, a in extra if (f, a) not in (('str', 'iter'), ('bytes', 'iter')))
@@ -1776,6 +2359,11 @@ def check_reread(ctx, d, v, small, what='dump', depth='none', sel=0, values=None
                 cname = sub if cls is not None else 'Deb822'
                 mode = '%s/%s/%s' % (form, '%s.iter_paragraphs' % cname if api == 'iter' else '%s()' % cname, sname)
                 ctx.mon('M.reread-sub')
+                if mv:
+                    ctx.mon('M.reread-mvstr')
+                    ctx.count('mvs:reread:%s:%s:%s' % ('cls' if cls is not None else 'Deb822', api, sname))
+                    if form not in ('str', 'bytes'):
+                        ctx.count('mvs:reread-lf-form')
                 ctx.count('sub:reread-form:' + form)
                 ctx.count('sub:reread:%s:%s' % (cname, api))
                 if strict is not None:
@@ -1948,6 +2536,9 @@ def run_case(ctx, case):
         return
     if kind == 'sub':
         run_sub(ctx, case)
+        return
+    if kind == 'mvs-penum':
+        run_mvs_penum(ctx, case)
         return
     if kind != 'enum':
         raise ValueError('unknown case kind %r' % kind)
